@@ -315,8 +315,18 @@ def main(argv: Optional[List[str]] = None) -> int:
         outs = [_worker((modname, ctxs[0]))]
     else:
         mpctx = mp.get_context('fork')
+        # safety net above the per-case watchdogs of the checks: a shard that does not come back within the wall budget
+        # makes the run inconclusive (exit 2), never a violation and never an endless run
+        wall_budget = float(os.environ.get('VERIF_WALL_BUDGET', '1800' if args.tier == 'quick' else '21600'))
         with mpctx.Pool(min(nshards, os.cpu_count() or 1), maxtasksperchild=1) as pool:
-            outs = pool.map(_worker, [(modname, c) for c in ctxs], chunksize=1)
+            pending = pool.map_async(_worker, [(modname, c) for c in ctxs], chunksize=1)
+            try:
+                outs = pending.get(timeout=wall_budget)
+            except mp.TimeoutError:
+                pool.terminate()
+                print(f'INCONCLUSIVE property={pid} a shard did not finish within {wall_budget:.0f}s of wall time')
+                print(f'HARNESS-ERROR property={pid} wall budget exceeded')
+                return 2
     for status, payload in outs:
         if status == 'ok':
             results.append(ShardResult.from_json(payload))
